@@ -445,7 +445,11 @@ func (b *bmcSys) hooks() *bmcHooks {
 			if !b.regFlat(et) || m.curProc == nil {
 				// not a pure scalar cell: a goroutine-local temporary (must be dead at
 				// the next visible operation; capture() rejects live pointers to it)
-				return m.newObject(et, m.zero(et), "local:"+in.Comment)
+				lo := m.newObject(et, m.zero(et), "local:"+in.Comment)
+				b.objSeq++
+				lo.ID = 3000000 + b.objSeq // unique across path machines and goroutines
+				lo.Ghost = true            // goroutine-local: never shared
+				return lo
 			}
 			key := fmt.Sprintf("p%d.%s.%d.%d", m.curProc.idx(b), fr.fn.String(), in.Block().Index, instrIndex(in))
 			o, ok := b.allocs[key]
